@@ -68,7 +68,10 @@ def main():
     r = rep.tlc(common.run_tlc("Trace_C12", cfg=cfg, wd=wd))
     hists = [[k - 1 for k in common.tlaval(st["hist"])] for st in r.states]
     hists = [h for h in hists if h]
-    if not thorough:
+    if thorough:
+        # all histories of length 1 and 2, a sample of those of length 3 (the pool has grown; the full cube took 94 minutes)
+        hists = [h for h in hists if len(h) <= 2] + gen.sample(rng, [h for h in hists if len(h) == 3], 4000)
+    else:
         hists = [h for h in hists if len(h) == 1] + gen.sample(rng, [h for h in hists if len(h) == 2], 120) + \
                 [[a, b, a] for a in range(0, n, 3) for b in range(1, n, 5)]
     # all ordered pairs of conversions, and of decodes by the same tool
@@ -78,7 +81,7 @@ def main():
     have = {tuple(h) for h in hists}
     hists += [[a, b] for a in range(n) for b in range(n) if a != b and kinds[a] == kinds[b] and kinds[a] != "convert" and (a, b) not in have]
     rep.count("histories", len(hists))
-    seeds = list(range(64)) if thorough else [0, 1, 2, 3, 4, 5, 6, 7, 99, 12345]
+    seeds = list(range(24)) if thorough else [0, 1, 2, 3, 4, 5, 6, 7, 99, 12345]
     # canonical results: each call alone, seed 0
     canon = common.run_real("w_history", [{"calls": calls, "histories": [[k] for k in range(n)]}], shards=1, hashseed="0")[0]["results"]
     canon = [c[0] for c in canon]
